@@ -36,7 +36,7 @@ func run(c *lib.Ctx) {
 		"(field, sorted multiset of the group's values) with at least two sites or at least one configured value")
 	bodyLimits(c)
 	listenerSettings(c)
-	c.Assume("scope matching is casket's documented base-path matching (prefix of the cleaned request path); only clean lower-case request paths are generated")
+	c.Assume("scope matching is casket's documented base-path matching (prefix of the cleaned request path); a quarter of the requests spell their path in upper case, with a doubled slash or through a dot segment, which names the same scope (casket's path matching is case-insensitive unless CASE_SENSITIVE_PATH is set)")
 	c.Assume("when a scope is configured twice in one table either configured value is accepted (the statement does not order duplicates)")
 	c.Assume("for an over-limit proxied body the back-end may see fewer than L bytes (the transport aborts the upstream request); it must never see more than L bytes and what it saw must be a prefix of what was sent")
 	c.Assume("'default' for a listener-wide field is whatever a listener whose only site configures nothing gets (observed differentially in the same process), not a constant copied from the source")
